@@ -789,6 +789,92 @@ func (s *State) mutate(t *rapid.T, label string) string {
 	return "noop"
 }
 
+// plantInsertRange builds the shape "several lines inserted directly in
+// front of a run of rules with one action": the target gets, in front of
+// the first line of such a run, a line L with the run's action, a line D
+// with the other action (mostly L with the action flipped, so that the two
+// overlap) and a further line P with the run's action; the device holds L
+// further down inside the same run. A correct script moves L up.
+func plantInsertRange(t *rapid.T, a, b *State) string {
+	var names []string
+	an := map[string]string{}
+	for _, n := range sortedKeys(b.ACLs) {
+		for _, cand := range []string{n, n + "-DRC-0"} {
+			if a.ACLs[cand] != nil {
+				an[n] = cand
+				names = append(names, n)
+				break
+			}
+		}
+	}
+	if len(names) == 0 {
+		return "noop"
+	}
+	n := rapid.SampledFrom(names).Draw(t, "plantACL")
+	lb, la := b.ACLs[n], a.ACLs[an[n]]
+	var starts []int
+	prev := ""
+	for i, e := range lb {
+		if e.IsRemark {
+			continue
+		}
+		act := "deny"
+		if e.Permit {
+			act = "permit"
+		}
+		if act != prev && i+1 < len(lb) && !lb[i+1].IsRemark && lb[i+1].Permit == e.Permit {
+			starts = append(starts, i)
+		}
+		prev = act
+	}
+	if len(starts) == 0 {
+		return "noop"
+	}
+	i := rapid.SampledFrom(starts).Draw(t, "plantAt")
+	alpha := lb[i].Permit
+	j := -1
+	for x, e := range la {
+		if !e.IsRemark && e.Key(true) == lb[i].Key(true) {
+			j = x
+			break
+		}
+	}
+	if j < 0 {
+		return "noop"
+	}
+	k := j
+	for k+1 < len(la) && !la[k+1].IsRemark && la[k+1].Permit == alpha {
+		k++
+	}
+	if k == j {
+		return "noop"
+	}
+	l := genACE(t, "plantL")
+	l.Permit = alpha
+	d := *l
+	d.Permit = !alpha
+	if rapid.IntRange(0, 2).Draw(t, "plantDrandom") == 0 {
+		d = *genACE(t, "plantD")
+		d.Permit = !alpha
+	}
+	pp := genACE(t, "plantP")
+	pp.Permit = alpha
+	for _, x := range []*ACE{l, &d, pp} {
+		if hasDup(lb, x) || hasDup(la, x) {
+			return "noop"
+		}
+	}
+	if l.Key(false) == pp.Key(false) || d.Key(false) == pp.Key(false) {
+		return "noop"
+	}
+	b.ACLs[n] = append(lb[:i:i], append([]*Entry{{ACE: *l}, {ACE: d}, {ACE: *pp}}, lb[i:]...)...)
+	at := rapid.IntRange(j+1, k).Draw(t, "plantOld") + 1
+	a.ACLs[an[n]] = append(la[:at:at], append([]*Entry{{ACE: *l}}, la[at:]...)...)
+	renumber(b.ACLs[n])
+	renumber(a.ACLs[an[n]])
+	return "plantInsertRange"
+}
+
 type Pair struct {
 	A, B *State
 	Mode string
@@ -824,6 +910,9 @@ func GenPair(t *rapid.T, o GenOpts) *Pair {
 	n := rapid.IntRange(0, 6).Draw(t, "nOps")
 	for i := 0; i < n; i++ {
 		p.Ops = append(p.Ops, p.A.mutate(t, fmt.Sprintf("op%d", i)))
+	}
+	if p.Mode == "derived" && rapid.IntRange(0, 7).Draw(t, "plant") == 0 {
+		p.Ops = append(p.Ops, plantInsertRange(t, p.A, p.B))
 	}
 	for _, i := range p.A.Intfs {
 		if i.In != "" && p.A.ACLs[i.In] == nil {
